@@ -650,6 +650,19 @@ zoom_case(Ctx& ctx)
     off[a] = rng.coin(0.25) ? 0.f : static_cast<float>(rng.uniform(-2.5, 2.5) * vs[a]);
   if (mode == 1)
     off[0] = 0.f;
+  // pure shifts: zoom exactly 1 and the same number of voxels along an axis, with a non-zero offset (whole and fractional
+  // voxels) - the case in which an implementation is tempted to skip the interpolation along that axis
+  bool pure[3] = { false, false, false };
+  if (mode == 0 && rng.coin(0.15))
+    for (int a = 0; a < 3; ++a)
+      if (rng.coin(0.6))
+        {
+          pure[a] = true;
+          zm[a] = 1.f;
+          off[a] = static_cast<float>((rng.coin() ? static_cast<double>(rng.range(1, 2)) * (rng.coin() ? 1 : -1) : rng.uniform(-1.7, 1.7)) * vs[a]);
+        }
+  if (pure[1] != pure[2])
+    zm[1] = zm[2] = 1.f; // keep the x/y zooms equal where the case asked for it above
   const bool want_cover = rng.coin(0.75);
   for (int a = 0; a < 3; ++a)
     {
@@ -658,6 +671,11 @@ zoom_case(Ctx& ctx)
       ns[a] = want_cover ? need + static_cast<int>(rng.range(1, 4)) : static_cast<int>(rng.range(1, need + 3));
       ns[a] = std::min(ns[a], 56);
     }
+  for (int a = 0; a < 3; ++a)
+    if (pure[a])
+      ns[a] = n[a];
+  if (pure[0] || pure[1] || pure[2])
+    ctx.count(pure[0] ? "zoom_cases_pure_shift_in_z" : "zoom_cases_pure_shift_in_xy_only");
   if (mode == 1)
     {
       ns[0] = n[0];
